@@ -188,3 +188,151 @@ Proof.
     destruct cl; inversion H; subst. eapply parse_msgs_ok; [|exact Ep]. cbn.
     destruct (x_id_meta (c_x c) =? 0); io_cases i0.
 Qed.
+
+(* ---- event_write keeps the invariant *)
+Lemma okio_mask : forall b i k, okio b (set_i_mask i k) = okio b i.
+Proof. intros. destruct i; reflexivity. Qed.
+
+Lemma fill_spec : forall fx ini del c c1 ext,
+  fx_pex_false fx = true -> fill fx ini del c = (c1, ext) ->
+  c_peer c1 = c_peer c /\ x_id_meta (c_x c1) = x_id_meta (c_x c) /\
+  exists k, (c_io c1 = set_i_mask (c_io c) k /\ (ext = None -> i_pend (c_io c) = None))
+         \/ (c_io c1 = set_i_mask (set_i_pend (c_io c) None) k /\ ext <> None).
+Proof.
+  intros fx ini del c c1 ext Hfx H. unfold fill in H.
+  assert (FIN : forall c0 k, c_peer c0 = c_peer c -> x_id_meta (c_x c0) = x_id_meta (c_x c) -> c_io c0 = set_i_mask (c_io c) k ->
+          match i_pend (c_io c0) with
+          | Some r => (with_io c0 (set_i_pend (c_io c0) None), Some (OMeta (c_peer c0) (x_id_meta (c_x c0)) r))
+          | None => (c0, None)
+          end = (c1, ext) ->
+          c_peer c1 = c_peer c /\ x_id_meta (c_x c1) = x_id_meta (c_x c) /\
+          exists k, (c_io c1 = set_i_mask (c_io c) k /\ (ext = None -> i_pend (c_io c) = None))
+                 \/ (c_io c1 = set_i_mask (set_i_pend (c_io c) None) k /\ ext <> None)).
+  { intros c0 k Hp Hx Hio HH. rewrite Hio in HH.
+    assert (Epd : i_pend (set_i_mask (c_io c) k) = i_pend (c_io c)) by (destruct (c_io c); reflexivity).
+    rewrite Epd in HH. destruct (i_pend (c_io c)) eqn:E; inversion HH; subst; clear HH; cbn.
+    - repeat split; auto. exists k. right. split; [destruct (c_io c); reflexivity|discriminate].
+    - repeat split; auto. exists k. left. split; [exact Hio|reflexivity]. }
+  destruct (mask_is0 (i_mask (c_io c))).
+  { cbv beta iota zeta in H. apply (FIN c (i_mask (c_io c))); auto. destruct (c_io c); reflexivity. }
+  unfold send_pex in H.
+  destruct (negb (x_rs_pex (c_x c))).
+  { cbv beta iota zeta in H. apply (FIN (with_io c (set_i_mask (c_io c) mask0)) mask0) in H; auto. }
+  destruct (k_en (i_mask (c_io c)) || k_dis (i_mask (c_io c))).
+  { cbv beta iota zeta in H. inversion H; subst; clear H. cbn. repeat split; auto. eexists. left. split; [reflexivity|discriminate]. }
+  destruct (k_do (i_mask (c_io c)) && negb (x_id_pex (c_x c) =? 0)).
+  { destruct (if x_init_pex (c_x c) then ini else del) as [[a r]|].
+    - cbv beta iota zeta in H. inversion H; subst; clear H. cbn. repeat split; auto. eexists. left. split; [reflexivity|discriminate].
+    - cbv beta iota zeta in H.
+      apply (FIN (mkConn (c_peer c) (set_x_init_pex (c_x c) false) (set_i_mask (c_io c) mask0)) mask0) in H; auto. }
+  rewrite Hfx in H. cbv beta iota zeta in H. cbn [negb] in H. cbv beta iota zeta in H.
+  apply (FIN (with_io c (set_i_mask (c_io c) mask0)) mask0) in H; auto.
+Qed.
+
+Lemma parse_msgs_in_write : forall fx meta ms c sp c' sp' cl,
+  i_in_write (c_io c) = true -> parse_msgs fx meta c sp ms = (c', sp', cl) -> i_in_write (c_io c') = true.
+Proof.
+  intros fx meta ms. induction ms as [|[m sz] rest IH]; intros c sp c' sp' cl Hw H.
+  - cbn in H. inversion H; subst. cbn. destruct (c_io c); exact Hw.
+  - cbn [parse_msgs] in H.
+    assert (PK : forall i, i_in_write i = true -> i_in_write (poke_write i) = true).
+    { intros i Hi. unfold poke_write. destruct (i_pend i); [destruct (i_up i)|]; auto; try (destruct i; reflexivity). }
+    assert (HS : forall h, (let '(x', pend', sp'0, bad) := parse_handshake fx (N.of_nat (length meta)) (c_x c) (i_pend (c_io c)) sp h in
+                 let c'0 := mkConn (c_peer c) x' (set_i_pend (c_io c) pend') in
+                 if bad then (with_io c'0 (set_i_buf (c_io c'0) rest), sp'0, true)
+                 else parse_msgs fx meta (with_io c'0 (poke_write (c_io c'0))) sp'0 rest) = (c', sp', cl) -> i_in_write (c_io c') = true).
+    { intros h Hh.
+      destruct (parse_handshake fx (N.of_nat (length meta)) (c_x c) (i_pend (c_io c)) sp h) as [[[x' pend'] sp1] bad].
+      destruct bad.
+      - inversion Hh; subst. cbn. destruct (c_io c); exact Hw.
+      - eapply IH; [|exact Hh]. cbn. apply PK. destruct (c_io c); exact Hw. }
+    destruct m as [h|e t p|].
+    + apply HS with (h := h). exact H.
+    + destruct (3 <=? e). { inversion H; subst. cbn. destruct (c_io c); exact Hw. }
+      destruct (e =? 0); [apply HS with (h := empty_hs); exact H|].
+      destruct (e =? 1). { eapply IH; [|exact H]. cbn. apply PK. exact Hw. }
+      destruct (negb (x_le_meta (c_x c))). { eapply IH; [|exact H]. cbn. apply PK. exact Hw. }
+      destruct (t =? 0)%Z.
+      * destruct (try_request meta (c_x c) (c_io c) p) as [i'|] eqn:E.
+        -- eapply IH; [|exact H]. cbn. apply PK. unfold try_request in E.
+           destruct (x_id_meta (c_x c) =? 0); [inversion E; subst; exact Hw|].
+           destruct (i_pend (c_io c)); [discriminate E|]. inversion E; subst. destruct (c_io c); exact Hw.
+        -- inversion H; subst. cbn. destruct (c_io c); exact Hw.
+      * eapply IH; [|exact H]. cbn. apply PK. exact Hw.
+    + eapply IH; [|exact H]. exact Hw.
+Qed.
+
+Lemma okc_with_io : forall c i, okc (with_io c i) = okio (x_id_meta (c_x c) =? 0) i.
+Proof. reflexivity. Qed.
+Lemma in_write_with_io : forall c i, i_in_write (c_io (with_io c i)) = i_in_write i.
+Proof. reflexivity. Qed.
+
+Lemma write_loop_ok : forall f fx meta ini del c sp acc c' sp' o,
+  fx_up_nothrow fx = true -> fx_pex_false fx = true -> fx_drain fx = true ->
+  okc c = true -> i_in_write (c_io c) = true ->
+  write_loop f fx meta ini del c sp acc = COk c' sp' o -> okc c' = true.
+Proof.
+  induction f as [|f IH]; intros fx meta ini del c sp acc c' sp' o F1 F2 F3 Hok Hw H; [discriminate H|].
+  cbn [write_loop] in H.
+  unfold okc in Hok.
+  remember (x_id_meta (c_x c) =? 0) as b eqn:Eb0.
+  remember (c_io c) as i eqn:Ei.
+  destruct (i_up i) as [|ext] eqn:Eu.
+  - destruct (fill fx ini del c) as [c1 ext] eqn:Ef.
+    destruct (fill_spec _ _ _ _ _ _ F2 Ef) as (Hp & Hx & k & Hk). rewrite <- Ei in Hk.
+    destruct ext as [e|].
+    + eapply (IH fx meta ini del _ sp acc); eauto.
+      * rewrite okc_with_io, Hx, <- Eb0.
+        destruct Hk as [[Eio _]|[Eio _]]; rewrite Eio; clear - Hok Hw Eu; destruct b; io_cases i.
+      * rewrite in_write_with_io. destruct Hk as [[Eio _]|[Eio _]]; rewrite Eio; clear - Hw; destruct i; exact Hw.
+    + destruct Hk as [[Eio Hn]|[_ Hn]]; [|exfalso; apply Hn; reflexivity].
+      specialize (Hn eq_refl).
+      destruct (i_kabuf (c_io c1)) eqn:Eka.
+      * eapply (IH fx meta ini del _ sp acc); eauto.
+        -- rewrite okc_with_io, Hx, <- Eb0, Eio. clear - Hok Hw Eu Hn. destruct b; io_cases i.
+        -- rewrite in_write_with_io, Eio. clear - Hw. destruct i; exact Hw.
+      * inversion H; subst c' sp' o; clear H. rewrite okc_with_io, Hx, <- Eb0, Eio.
+        clear - Hok Hw Eu Hn. destruct b; io_cases i.
+  - destruct (i_wblocked i). { inversion H; subst c' sp' o. unfold okc. rewrite <- Eb0, <- Ei. exact Hok. }
+    destruct ext as [e|].
+    2: { eapply (IH fx meta ini del _ sp acc); eauto.
+         - rewrite okc_with_io, <- Eb0. clear - Hok Hw Eu. destruct b; io_cases i.
+         - rewrite in_write_with_io. clear - Hw. destruct i; exact Hw. }
+    rewrite F1, F3 in H.
+    destruct (i_blocked i) as [p|] eqn:Ebl.
+    + destruct (try_request meta (c_x c) i p) as [i'|] eqn:Et.
+      * (* the waiting message is processed; READ_EXTENSION: drain *)
+        assert (Et' := Et). unfold try_request in Et'. rewrite <- Eb0 in Et'.
+        assert (Eds : i_ds_ext (set_i_up (set_i_in_read (set_i_blocked i' None) true) UIdle) = true).
+        { clear - Hok Ebl Et'. destruct b.
+          - inversion Et'; subst. io_cases i'.
+          - destruct (i_pend i) eqn:Epd; [discriminate Et'|]. inversion Et'; subst. io_cases i. }
+        rewrite Eds in H.
+        assert (Ebl2 : i_blocked (set_i_up (set_i_in_read (set_i_blocked i' None) true) UIdle) = None) by (destruct i'; reflexivity).
+        rewrite Ebl2 in H. cbn [andb] in H.
+        match type of H with context [parse_msgs ?a ?bb ?cc ?d ?ee] => destruct (parse_msgs a bb cc d ee) as [[c1 sp1] cl] eqn:Ep end.
+        destruct cl; [discriminate H|].
+        eapply (IH fx meta ini del c1 sp1); eauto.
+        -- eapply parse_msgs_ok; [|exact Ep]. cbn [c_x c_io with_io]. rewrite <- Eb0.
+           clear - Hok Hw Ebl Et' Eu. destruct b.
+           ++ inversion Et'; subst. io_cases i'.
+           ++ destruct (i_pend i) eqn:Epd; [discriminate Et'|]. inversion Et'; subst. io_cases i.
+        -- eapply parse_msgs_in_write; [|exact Ep]. cbn [c_io with_io].
+           clear - Hw Et'. destruct b.
+           ++ inversion Et'; subst. destruct i'; exact Hw.
+           ++ destruct (i_pend i); [discriminate Et'|]. inversion Et'; subst. destruct i; exact Hw.
+      * (* still cannot proceed: keeps waiting *)
+        assert (Ebl2 : i_blocked (set_i_up i UIdle) = Some p) by (destruct i; exact Ebl).
+        rewrite Ebl2 in H. rewrite andb_false_r in H.
+        eapply (IH fx meta ini del _ sp); eauto.
+        -- pose proof (try_request_none _ _ _ _ Et) as Q. rewrite okc_with_io, <- Eb0.
+           clear - Hok Hw Ebl Eu Q. destruct b; io_cases i.
+        -- rewrite in_write_with_io. clear - Hw. destruct i; exact Hw.
+    + (* nothing waits: READ_EXTENSION is impossible *)
+      assert (Eds : i_ds_ext (set_i_up i UIdle) = false).
+      { clear - Hok Ebl. destruct b; io_cases i. }
+      rewrite Eds in H. cbn [andb] in H. rewrite andb_false_r in H.
+      eapply (IH fx meta ini del _ sp); eauto.
+      * rewrite okc_with_io, <- Eb0. clear - Hok Hw Ebl Eu. destruct b; io_cases i.
+      * rewrite in_write_with_io. clear - Hw. destruct i; exact Hw.
+Qed.
